@@ -1,1 +1,2157 @@
-fn main() {}
+//! C18 — IFT patches change exactly what they say, atomically and order-independently.
+//!
+//! The real `PatchGroup::select_next_patches` / `apply_next_patches_with_decoder` (and through them
+//! `apply_glyph_keyed_patches` / `apply_table_keyed_patch`) are driven over harness-synthesised base
+//! fonts, mapping tables and patches; every result is compared with a reference of the patch
+//! semantics on the *table map* (ref_*.rs style code below) and the caller's `UriStatus` map is
+//! snapshotted around every call.
+//!
+//! Spaces (fixed nested order; the per patch-set sub-space of application order, grouping and
+//! decoder fault is enumerated with the vcore choice tape, `explore_full`):
+//!   gk    : base kinds x glyph-data "worlds" x patch sets (singles, pairs, triples) x id
+//!           permutation (= order inside one call) x ordered partition into calls x decoder fault
+//!   wide  : totals on both sides of the short-offset limit 0x1FFFE (glyf/loca, gvar) and of the CFF
+//!           offSize limits (254, 65534)
+//!   tk    : table keyed patches: per table {replace, diff, drop} over <= 3 of 5 tags x compat x fault
+//!   misc  : compat id mismatch, disagreeing patches (documented first-wins), out of range gid, unknown
+//!           table tags, missing URIs
+
+mod model;
+mod patches;
+
+use incremental_font_transfer::font_patch::PatchingError;
+use incremental_font_transfer::patch_group::{PatchGroup, UriStatus};
+use model::*;
+use patches::*;
+use read_fonts::types::Tag;
+use read_fonts::FontRef;
+use serde::{Deserialize, Serialize};
+use serde_json::{json, Value};
+use shared_brotli_patch_decoder::decode_error::DecodeError;
+use shared_brotli_patch_decoder::SharedBrotliDecoder;
+use std::cell::Cell;
+use std::collections::{BTreeMap, HashMap, HashSet};
+use std::sync::Mutex;
+use vcore::*;
+
+fn main() {
+    main_for("C18", body)
+}
+
+const NG: usize = 6; // glyphs in every base font
+const LIMIT_SHORT: usize = 0x1FFFE;
+
+// ---------------------------------------------------------------------------
+// decoders (injected dependency)
+// ---------------------------------------------------------------------------
+
+#[derive(Clone, Copy, Debug, PartialEq, Serialize, Deserialize)]
+pub enum FaultKind {
+    InitFailure,
+    InvalidStream,
+    InvalidDictionary,
+    MaxSizeExceeded,
+    ExcessInputData,
+    IoError,
+    /// not an error: the decoder returns one byte more than max_uncompressed_length
+    Oversize,
+}
+
+pub const FAULT_KINDS: [FaultKind; 7] = [
+    FaultKind::InitFailure,
+    FaultKind::InvalidStream,
+    FaultKind::InvalidDictionary,
+    FaultKind::MaxSizeExceeded,
+    FaultKind::ExcessInputData,
+    FaultKind::IoError,
+    FaultKind::Oversize,
+];
+
+/// Pass-through decoder with a dictionary rule (so that "diff against base" is observable) and an
+/// optional fault at its k-th call (1 based, counted over the decoder's life time).
+/// With a dictionary: output = dictionary ++ [0xDD] ++ encoded; without: output = encoded.
+pub struct Decoder {
+    pub calls: Cell<u32>,
+    pub fault: Option<(u32, FaultKind)>,
+    pub fault_hit: Cell<bool>,
+}
+
+impl Decoder {
+    pub fn new(fault: Option<(u32, FaultKind)>) -> Self {
+        Decoder {
+            calls: Cell::new(0),
+            fault,
+            fault_hit: Cell::new(false),
+        }
+    }
+}
+
+impl SharedBrotliDecoder for Decoder {
+    fn decode(
+        &self,
+        encoded: &[u8],
+        shared_dictionary: Option<&[u8]>,
+        max_uncompressed_length: usize,
+    ) -> Result<Vec<u8>, DecodeError> {
+        let n = self.calls.get() + 1;
+        self.calls.set(n);
+        let mut out = vec![];
+        if let Some(d) = shared_dictionary {
+            out.extend_from_slice(d);
+            out.push(0xDD);
+        }
+        out.extend_from_slice(encoded);
+        if let Some((k, kind)) = self.fault {
+            if k == n {
+                self.fault_hit.set(true);
+                return match kind {
+                    FaultKind::InitFailure => Err(DecodeError::InitFailure),
+                    FaultKind::InvalidStream => Err(DecodeError::InvalidStream),
+                    FaultKind::InvalidDictionary => Err(DecodeError::InvalidDictionary),
+                    FaultKind::MaxSizeExceeded => Err(DecodeError::MaxSizeExceeded),
+                    FaultKind::ExcessInputData => Err(DecodeError::ExcessInputData),
+                    FaultKind::IoError => Err(DecodeError::IoError(std::io::ErrorKind::Other)),
+                    FaultKind::Oversize => {
+                        while out.len() <= max_uncompressed_length {
+                            out.push(0xEE);
+                        }
+                        Ok(out)
+                    }
+                };
+            }
+        }
+        if out.len() > max_uncompressed_length {
+            return Err(DecodeError::MaxSizeExceeded);
+        }
+        Ok(out)
+    }
+}
+
+// ---------------------------------------------------------------------------
+// reference font model (table map)
+// ---------------------------------------------------------------------------
+
+#[derive(Clone, Copy, Debug, PartialEq, Eq, Hash, Serialize, Deserialize)]
+pub enum BaseKind {
+    GlyfShort,
+    GlyfLong,
+    GvarShort,
+    GvarLong,
+    /// glyf (short loca) and gvar (short) in one font
+    GlyfGvar,
+    Cff,
+    Cff2,
+}
+
+#[derive(Clone, Debug, PartialEq, Eq, Hash, Serialize, Deserialize)]
+pub struct BaseSpec {
+    pub kind: BaseKind,
+    /// stored length of the data of every glyph in the base (even for short kinds)
+    pub lens: Vec<usize>,
+    /// CFF/CFF2 charstrings offSize of the base
+    pub off_size: u8,
+    /// gvar: shared tuples placed after the glyph data (out of spec order) instead of before
+    pub gvar_tuples_last: bool,
+}
+
+/// an offset-array table: per glyph the *stored* bytes (padding included)
+#[derive(Clone, Debug, PartialEq)]
+pub struct OffT {
+    pub slices: Vec<Vec<u8>>,
+    /// glyf/gvar: long offsets; CFF: unused
+    pub long: bool,
+    /// CFF/CFF2 offSize
+    pub off_size: u8,
+}
+
+#[derive(Clone, Debug, PartialEq)]
+pub struct RefFont {
+    pub glyf: Option<OffT>,
+    pub gvar: Option<OffT>,
+    pub cff: Option<OffT>,
+    pub cff2: Option<OffT>,
+    /// bytes of the CFF / CFF2 table before the charstrings INDEX
+    pub cff_prefix: Vec<u8>,
+    /// gvar: shared tuple bytes
+    pub gvar_tuples: Vec<u8>,
+    /// every other table incl. IFT / IFTX / head / maxp / cmap
+    pub others: BTreeMap<TagB, Vec<u8>>,
+}
+
+fn base_glyph_bytes(table: u8, g: usize, len: usize) -> Vec<u8> {
+    (0..len).map(|i| 0x80 | (table << 5) | ((g as u8) << 2) | (i as u8 & 3)).collect()
+}
+
+fn put_off(w: &mut W, size: u8, v: u32) {
+    match size {
+        1 => w.u8(v as u8),
+        2 => w.u16(v as u16),
+        3 => w.u24(v),
+        _ => w.u32(v),
+    }
+}
+
+fn encode_loca(t: &OffT) -> (Vec<u8>, Vec<u8>) {
+    let mut glyf = vec![];
+    let mut loca = W::default();
+    let mut off = 0u32;
+    for s in &t.slices {
+        if t.long {
+            loca.u32(off)
+        } else {
+            loca.u16((off / 2) as u16)
+        }
+        glyf.extend_from_slice(s);
+        off += s.len() as u32;
+    }
+    if t.long {
+        loca.u32(off)
+    } else {
+        loca.u16((off / 2) as u16)
+    }
+    (glyf, loca.0)
+}
+
+fn encode_gvar(t: &OffT, tuples: &[u8], tuples_last: bool) -> Vec<u8> {
+    let mut w = W::default();
+    w.u16(1);
+    w.u16(0);
+    w.u16(1); // axis count
+    w.u16((tuples.len() / 2) as u16); // shared tuple count (1 axis => 2 bytes per tuple)
+    let st_at = w.len();
+    w.u32(0);
+    w.u16(t.slices.len() as u16);
+    w.u16(t.long as u16);
+    let data_at = w.len();
+    w.u32(0);
+    let mut off = 0u32;
+    for s in t.slices.iter() {
+        if t.long {
+            w.u32(off)
+        } else {
+            w.u16((off / 2) as u16)
+        }
+        off += s.len() as u32;
+    }
+    if t.long {
+        w.u32(off)
+    } else {
+        w.u16((off / 2) as u16)
+    }
+    let put_tuples = |w: &mut W| {
+        let at = w.len() as u32;
+        w.patch_u32(st_at, at);
+        w.bytes(tuples);
+    };
+    if !tuples_last {
+        put_tuples(&mut w);
+    }
+    let at = w.len() as u32;
+    w.patch_u32(data_at, at);
+    for s in &t.slices {
+        w.bytes(s);
+    }
+    if tuples_last {
+        put_tuples(&mut w);
+    }
+    w.0
+}
+
+fn cff_prefix(v2: bool) -> Vec<u8> {
+    if v2 {
+        // header (5 bytes, top dict length 1), top dict, empty global subr INDEX (u32 count)
+        vec![2, 0, 5, 0, 1, 0x8b, 0, 0, 0, 0]
+    } else {
+        // header, name INDEX ["A"], top dict INDEX [1 byte], empty string INDEX, empty global subr INDEX
+        vec![1, 0, 4, 1, 0, 1, 1, 1, 2, b'A', 0, 1, 1, 1, 2, 0x8b, 0, 0, 0, 0]
+    }
+}
+
+fn encode_cff(prefix: &[u8], t: &OffT, v2: bool) -> Vec<u8> {
+    let mut w = W::default();
+    w.bytes(prefix);
+    if v2 {
+        w.u32(t.slices.len() as u32)
+    } else {
+        w.u16(t.slices.len() as u16)
+    }
+    w.u8(t.off_size);
+    let mut off = 1u32;
+    for s in &t.slices {
+        put_off(&mut w, t.off_size, off);
+        off += s.len() as u32;
+    }
+    put_off(&mut w, t.off_size, off);
+    for s in &t.slices {
+        w.bytes(s);
+    }
+    w.0
+}
+
+pub const IFT: TagB = *b"IFT ";
+pub const IFTX: TagB = *b"IFTX";
+pub const GLYF: TagB = *b"glyf";
+pub const LOCA: TagB = *b"loca";
+pub const GVAR: TagB = *b"gvar";
+pub const CFF: TagB = *b"CFF ";
+pub const CFF2: TagB = *b"CFF2";
+pub const HEAD: TagB = *b"head";
+pub const ZZZZ: TagB = *b"zzzz";
+
+pub fn build_base(spec: &BaseSpec) -> RefFont {
+    use write_fonts::tables::{cmap::Cmap, head::Head, maxp::Maxp};
+    let mut f = RefFont {
+        glyf: None,
+        gvar: None,
+        cff: None,
+        cff2: None,
+        cff_prefix: vec![],
+        gvar_tuples: vec![0, 42, 0, 13, 0, 25],
+        others: BTreeMap::new(),
+    };
+    let slices = |table: u8| -> Vec<Vec<u8>> {
+        spec.lens
+            .iter()
+            .enumerate()
+            .map(|(g, l)| base_glyph_bytes(table, g, *l))
+            .collect()
+    };
+    let mut long_loca = false;
+    match spec.kind {
+        BaseKind::GlyfShort => f.glyf = Some(OffT { slices: slices(0), long: false, off_size: 0 }),
+        BaseKind::GlyfLong => {
+            long_loca = true;
+            f.glyf = Some(OffT { slices: slices(0), long: true, off_size: 0 })
+        }
+        BaseKind::GvarShort => f.gvar = Some(OffT { slices: slices(1), long: false, off_size: 0 }),
+        BaseKind::GvarLong => f.gvar = Some(OffT { slices: slices(1), long: true, off_size: 0 }),
+        BaseKind::GlyfGvar => {
+            f.glyf = Some(OffT { slices: slices(0), long: false, off_size: 0 });
+            f.gvar = Some(OffT { slices: slices(1), long: false, off_size: 0 });
+        }
+        BaseKind::Cff => {
+            f.cff_prefix = cff_prefix(false);
+            f.cff = Some(OffT { slices: slices(2), long: false, off_size: spec.off_size });
+        }
+        BaseKind::Cff2 => {
+            f.cff_prefix = cff_prefix(true);
+            f.cff2 = Some(OffT { slices: slices(3), long: false, off_size: spec.off_size });
+        }
+    }
+    let cmap = Cmap::from_mappings(
+        (0..5u32).map(|i| (char::from_u32(0x41 + i).unwrap(), font_types::GlyphId::new(i + 1))),
+    )
+    .unwrap();
+    let maxp = Maxp {
+        num_glyphs: NG as u16,
+        ..Default::default()
+    };
+    let head = Head {
+        index_to_loc_format: long_loca as i16,
+        ..Default::default()
+    };
+    f.others.insert(*b"cmap", write_fonts::dump_table(&cmap).unwrap());
+    f.others.insert(*b"maxp", write_fonts::dump_table(&maxp).unwrap());
+    f.others.insert(HEAD, write_fonts::dump_table(&head).unwrap());
+    f.others.insert(*b"tabA", b"unrelated table A".to_vec());
+    f.others.insert(*b"tabB", vec![]);
+    f
+}
+
+pub fn encode_font(f: &RefFont, spec: &BaseSpec) -> Vec<u8> {
+    let mut b = write_fonts::FontBuilder::new();
+    for (t, d) in &f.others {
+        b.add_raw(Tag::new(t), d.clone());
+    }
+    if let Some(t) = &f.glyf {
+        let (glyf, loca) = encode_loca(t);
+        b.add_raw(Tag::new(&GLYF), glyf);
+        b.add_raw(Tag::new(&LOCA), loca);
+    }
+    if let Some(t) = &f.gvar {
+        b.add_raw(Tag::new(&GVAR), encode_gvar(t, &f.gvar_tuples, spec.gvar_tuples_last));
+    }
+    if let Some(t) = &f.cff {
+        b.add_raw(Tag::new(&CFF), encode_cff(&f.cff_prefix, t, false));
+    }
+    if let Some(t) = &f.cff2 {
+        b.add_raw(Tag::new(&CFF2), encode_cff(&f.cff_prefix, t, true));
+    }
+    b.build()
+}
+
+// ---------------------------------------------------------------------------
+// patches (model) and the reference application
+// ---------------------------------------------------------------------------
+
+#[derive(Clone, Debug, PartialEq, Serialize, Deserialize)]
+pub struct GkPatch {
+    pub compat: [u32; 4],
+    pub wide: bool,
+    pub gids: Vec<u32>,
+    pub tables: Vec<TagB>,
+    /// data[table][glyph]
+    pub data: Vec<Vec<Vec<u8>>>,
+}
+
+impl GkPatch {
+    pub fn bytes(&self) -> Vec<u8> {
+        glyph_keyed_patch(self.compat, self.wide, &self.gids, &self.tables, &self.data, 0)
+    }
+}
+
+#[derive(Debug, Clone, PartialEq)]
+pub enum RefErr {
+    OffsetOverflow,
+    GidBeyondFont,
+    MissingTable,
+    Incompatible,
+}
+
+fn cff_max(off_size: u8) -> usize {
+    (1usize << (8 * off_size as usize)) - 2
+}
+
+/// Apply the glyph keyed patches of ONE call, in application order, to table `tag`.
+fn ref_patch_table(t: &mut OffT, tag: TagB, patches: &[&GkPatch], is_cff: bool, can_widen: bool) -> Result<(), RefErr> {
+    // first patch (in application order) that lists the glyph wins
+    let mut repl: BTreeMap<u32, &Vec<u8>> = BTreeMap::new();
+    for p in patches {
+        let Some(ti) = p.tables.iter().position(|x| *x == tag) else {
+            continue;
+        };
+        for (gi, g) in p.gids.iter().enumerate() {
+            repl.entry(*g).or_insert(&p.data[ti][gi]);
+        }
+    }
+    let div = if !is_cff && !t.long { 2 } else { 1 };
+    let mut total = 0usize;
+    for (g, s) in t.slices.iter().enumerate() {
+        match repl.get(&(g as u32)) {
+            Some(d) => total += d.len() + d.len() % div,
+            None => total += s.len(),
+        }
+    }
+    // widening decision
+    if is_cff {
+        if total > cff_max(t.off_size) {
+            let mut w = t.off_size;
+            while w < 4 && cff_max(w) < total {
+                w += 1;
+            }
+            t.off_size = w;
+        }
+    } else if !t.long && total > LIMIT_SHORT {
+        if !can_widen {
+            return Err(RefErr::OffsetOverflow);
+        }
+        t.long = true;
+    }
+    if let Some((g, _)) = repl.iter().next_back() {
+        if *g as usize >= t.slices.len() {
+            return Err(RefErr::GidBeyondFont);
+        }
+    }
+    let new_div = if !is_cff && !t.long { 2 } else { 1 };
+    for (g, d) in repl {
+        let mut v = d.clone();
+        if v.len() % new_div != 0 {
+            v.push(0);
+        }
+        t.slices[g as usize] = v;
+    }
+    Ok(())
+}
+
+/// Reference of one `apply_glyph_keyed_patches` call. `bits` = (table tag, bit index) of every patch.
+pub fn ref_apply_gk(f: &mut RefFont, patches: &[&GkPatch], bits: &[(TagB, usize)], compat: &HashMap<TagB, [u32; 4]>, patch_tables: &[TagB]) -> Result<(), RefErr> {
+    for (p, t) in patches.iter().zip(patch_tables) {
+        if compat.get(t) != Some(&p.compat) {
+            return Err(RefErr::Incompatible);
+        }
+    }
+    let mut g = f.clone();
+    let mut tags: Vec<TagB> = patches.iter().flat_map(|p| p.tables.iter().copied()).collect();
+    tags.sort();
+    tags.dedup();
+    for tag in tags {
+        let (slot, is_cff, can_widen) = if tag == GLYF {
+            (&mut g.glyf, false, false)
+        } else if tag == GVAR {
+            (&mut g.gvar, false, true)
+        } else if tag == CFF {
+            (&mut g.cff, true, true)
+        } else if tag == CFF2 {
+            (&mut g.cff2, true, true)
+        } else {
+            continue;
+        };
+        let Some(t) = slot.as_mut() else {
+            return Err(RefErr::MissingTable);
+        };
+        ref_patch_table(t, tag, patches, is_cff, can_widen)?;
+    }
+    for (tag, bit) in bits {
+        let d = g.others.get_mut(tag).expect("mapping table present");
+        d[bit / 8] |= 1 << (bit % 8);
+    }
+    *f = g;
+    Ok(())
+}
+
+// ---------------------------------------------------------------------------
+// reading a result font back (independent parsers for the offset arrays)
+// ---------------------------------------------------------------------------
+
+fn be16(b: &[u8], at: usize) -> Option<u32> {
+    Some(u16::from_be_bytes(b.get(at..at + 2)?.try_into().ok()?) as u32)
+}
+fn be32(b: &[u8], at: usize) -> Option<u32> {
+    Some(u32::from_be_bytes(b.get(at..at + 4)?.try_into().ok()?))
+}
+fn be_n(b: &[u8], at: usize, n: usize) -> Option<u32> {
+    let s = b.get(at..at + n)?;
+    let mut v = 0u32;
+    for x in s {
+        v = (v << 8) | *x as u32;
+    }
+    Some(v)
+}
+
+pub fn table_map(font: &[u8]) -> Result<BTreeMap<TagB, Vec<u8>>, String> {
+    let f = FontRef::new(font).map_err(|e| format!("result font does not parse: {e}"))?;
+    let mut m = BTreeMap::new();
+    for r in f.table_directory.table_records() {
+        let tag = r.tag();
+        let d = f.table_data(tag).ok_or("table data out of bounds")?;
+        let mut bytes = d.as_bytes().to_vec();
+        let t: TagB = tag.to_be_bytes();
+        if t == HEAD && bytes.len() >= 12 {
+            // checksum adjustment is recomputed by the font container writer
+            bytes[8..12].copy_from_slice(&[0; 4]);
+        }
+        if m.insert(t, bytes).is_some() {
+            return Err("duplicate table tag in result".into());
+        }
+    }
+    Ok(m)
+}
+
+fn slices_from_offsets(offs: &[u32], data: &[u8], what: &str) -> Result<Vec<Vec<u8>>, String> {
+    let mut out = vec![];
+    for w in offs.windows(2) {
+        if w[0] > w[1] {
+            return Err(format!("{what}: offsets not ascending {:?}", offs));
+        }
+        out.push(
+            data.get(w[0] as usize..w[1] as usize)
+                .ok_or(format!("{what}: offset beyond data"))?
+                .to_vec(),
+        );
+    }
+    Ok(out)
+}
+
+/// Compare a result font with the reference. Err((class, detail)); class is used in the identity.
+pub fn compare(font: &[u8], want: &RefFont) -> Result<(), (String, String)> {
+    let e = |c: &str, d: String| Err((c.to_string(), d));
+    let m = match table_map(font) {
+        Ok(m) => m,
+        Err(s) => return e("result unreadable", s),
+    };
+    let mut expect_tags: Vec<TagB> = want.others.keys().copied().collect();
+    if want.glyf.is_some() {
+        expect_tags.extend([GLYF, LOCA]);
+    }
+    if want.gvar.is_some() {
+        expect_tags.push(GVAR);
+    }
+    if want.cff.is_some() {
+        expect_tags.push(CFF);
+    }
+    if want.cff2.is_some() {
+        expect_tags.push(CFF2);
+    }
+    expect_tags.sort();
+    let got_tags: Vec<TagB> = m.keys().copied().collect();
+    if got_tags != expect_tags {
+        return e(
+            "table set differs",
+            format!(
+                "got {:?} want {:?}",
+                got_tags.iter().map(tag_str).collect::<Vec<_>>(),
+                expect_tags.iter().map(tag_str).collect::<Vec<_>>()
+            ),
+        );
+    }
+    for (t, d) in &want.others {
+        let mut d = d.clone();
+        if *t == HEAD && d.len() >= 12 {
+            d[8..12].copy_from_slice(&[0; 4]);
+        }
+        if m[t] != d {
+            let class = if *t == IFT || *t == IFTX {
+                "applied bits in mapping table differ"
+            } else {
+                "untouched table changed"
+            };
+            return e(class, format!("{}: got {} want {}", tag_str(t), hex(&m[t]), hex(&d)));
+        }
+    }
+    if let Some(t) = &want.glyf {
+        let loca = &m[&LOCA];
+        let n = t.slices.len() + 1;
+        let width = if t.long { 4 } else { 2 };
+        if loca.len() != n * width {
+            return e("loca width/length differs", format!("loca len {} want {}", loca.len(), n * width));
+        }
+        let offs: Vec<u32> = (0..n)
+            .map(|i| if t.long { be32(loca, 4 * i).unwrap() } else { be16(loca, 2 * i).unwrap() * 2 })
+            .collect();
+        let s = match slices_from_offsets(&offs, &m[&GLYF], "glyf/loca") {
+            Ok(s) => s,
+            Err(d) => return e("glyf offsets broken", d),
+        };
+        if let Some(g) = (0..t.slices.len()).find(|g| s[*g] != t.slices[*g]) {
+            return e(
+                "glyf glyph data differs",
+                format!("gid {g}: got {} want {}", hex(&s[g]), hex(&t.slices[g])),
+            );
+        }
+    }
+    if let Some(t) = &want.gvar {
+        let b = &m[&GVAR];
+        let bad = || e("gvar header broken", hex(&b[..b.len().min(40)]));
+        let (Some(ver), Some(axes), Some(ntup), Some(st_off), Some(gc), Some(flags), Some(data_off)) =
+            (be32(b, 0), be16(b, 4), be16(b, 6), be32(b, 8), be16(b, 12), be16(b, 14), be32(b, 16))
+        else {
+            return bad();
+        };
+        if ver != 0x0001_0000 || axes != 1 || ntup as usize != want.gvar_tuples.len() / 2 || gc as usize != t.slices.len() {
+            return bad();
+        }
+        if (flags & 1 == 1) != t.long {
+            return e(
+                "gvar offset width differs",
+                format!("long={} want long={}", flags & 1, t.long),
+            );
+        }
+        let n = t.slices.len() + 1;
+        let mut offs = vec![];
+        for i in 0..n {
+            let v = if t.long { be32(b, 20 + 4 * i) } else { be16(b, 20 + 2 * i).map(|v| v * 2) };
+            let Some(v) = v else { return bad() };
+            offs.push(v);
+        }
+        let Some(data) = b.get(data_off as usize..) else { return bad() };
+        let s = match slices_from_offsets(&offs, data, "gvar") {
+            Ok(s) => s,
+            Err(d) => return e("gvar offsets broken", d),
+        };
+        if let Some(g) = (0..t.slices.len()).find(|g| s[*g] != t.slices[*g]) {
+            return e(
+                "gvar glyph data differs",
+                format!("gid {g}: got {} want {}", hex(&s[g]), hex(&t.slices[g])),
+            );
+        }
+        let tl = want.gvar_tuples.len();
+        if b.get(st_off as usize..st_off as usize + tl) != Some(&want.gvar_tuples[..]) {
+            return e("gvar shared tuples differ", format!("at {st_off}"));
+        }
+    }
+    for (t, tag, v2) in [(&want.cff, CFF, false), (&want.cff2, CFF2, true)] {
+        let Some(t) = t else { continue };
+        let b = &m[&tag];
+        let p = want.cff_prefix.len();
+        if b.get(..p) != Some(&want.cff_prefix[..]) {
+            return e("CFF bytes before charstrings changed", hex(&b[..b.len().min(p)]));
+        }
+        let (count, at) = if v2 { (be32(b, p), p + 4) } else { (be16(b, p), p + 2) };
+        if count != Some(t.slices.len() as u32) {
+            return e("CFF charstrings count differs", format!("{count:?}"));
+        }
+        let Some(os) = b.get(at).copied() else {
+            return e("CFF charstrings truncated", String::new());
+        };
+        if os != t.off_size {
+            return e("CFF offSize differs", format!("offSize {os} want {}", t.off_size));
+        }
+        let n = t.slices.len() + 1;
+        let mut offs = vec![];
+        for i in 0..n {
+            let Some(v) = be_n(b, at + 1 + i * os as usize, os as usize) else {
+                return e("CFF charstrings truncated", String::new());
+            };
+            if v == 0 {
+                return e("CFF offset 0", String::new());
+            }
+            offs.push(v - 1);
+        }
+        if offs[0] != 0 {
+            return e("CFF first offset not 1", format!("{:?}", offs));
+        }
+        let data = &b[at + 1 + n * os as usize..];
+        let s = match slices_from_offsets(&offs, data, "CFF") {
+            Ok(s) => s,
+            Err(d) => return e("CFF offsets broken", d),
+        };
+        if let Some(g) = (0..t.slices.len()).find(|g| s[*g] != t.slices[*g]) {
+            return e(
+                "CFF glyph data differs",
+                format!("gid {g}: got {} want {}", hex(&s[g]), hex(&t.slices[g])),
+            );
+        }
+    }
+    Ok(())
+}
+
+// ---------------------------------------------------------------------------
+// UriStatus map helpers
+// ---------------------------------------------------------------------------
+
+pub type Snap = Vec<(String, Option<Vec<u8>>)>;
+
+pub fn snapshot(m: &HashMap<String, UriStatus>) -> Snap {
+    let mut v: Snap = m
+        .iter()
+        .map(|(k, s)| {
+            (
+                k.clone(),
+                match s {
+                    UriStatus::Applied => None,
+                    UriStatus::Pending(b) => Some(b.clone()),
+                },
+            )
+        })
+        .collect();
+    v.sort();
+    v
+}
+
+// ---------------------------------------------------------------------------
+// scenario: base + mapping + patch set
+// ---------------------------------------------------------------------------
+
+#[derive(Clone, Copy, Debug, PartialEq, Eq, Hash, Serialize, Deserialize)]
+pub enum Mapping {
+    /// all entries in a format-2 "IFT " table
+    F2,
+    /// all entries in a format-1 "IFT " table (entry i+1 <- gid i+1 <- code point 0x41+i)
+    F1,
+    /// even entries in a format-2 "IFT ", odd entries in a format-2 "IFTX" (other compat id, other template)
+    Split,
+}
+
+pub const COMPAT_IFT: [u32; 4] = [1, 2, 3, 4];
+pub const COMPAT_IFTX: [u32; 4] = [5, 6, 7, 8];
+
+#[derive(Clone, Debug, Serialize, Deserialize)]
+pub struct Scenario {
+    pub base: BaseSpec,
+    pub mapping: Mapping,
+    pub patches: Vec<GkPatch>,
+    /// patch formats per entry: 3 = glyph keyed (the only one used in gk scenarios)
+    pub note: String,
+}
+
+pub struct Built {
+    pub font: Vec<u8>,
+    pub reference: RefFont,
+    /// per patch: uri, mapping table tag, applied bit index, code point that selects it
+    pub uris: Vec<String>,
+    pub tables: Vec<TagB>,
+    pub bits: Vec<usize>,
+    pub cps: Vec<u32>,
+}
+
+/// `ids[i]` = numeric id of patch i (format 2 only; decides the URI and so the order inside a call)
+pub fn build_scenario(sc: &Scenario, ids: &[u32]) -> Built {
+    let n = sc.patches.len();
+    let mut reference = build_base(&sc.base);
+    let cff_off = matches!(sc.base.kind, BaseKind::Cff).then(|| reference.cff_prefix.len() as u32);
+    let cff2_off = matches!(sc.base.kind, BaseKind::Cff2).then(|| reference.cff_prefix.len() as u32);
+    let cp = |i: usize| 0x41 + i as u32;
+    let mut uris = vec![String::new(); n];
+    let mut tables = vec![IFT; n];
+    let mut bits = vec![0usize; n];
+    let cps: Vec<u32> = (0..n).map(cp).collect();
+    let entry = |i: usize, last_id: &mut i64| {
+        let mut e = E2::plain();
+        e.cps = Cps::Set {
+            bias_kind: 0,
+            bias: 0,
+            members: vec![cp(i)],
+        };
+        let delta = ids[i] as i64 - *last_id - 1;
+        e.id = if delta == 0 { IdSpec::Default } else { IdSpec::Delta(delta as i32) };
+        *last_id = ids[i] as i64;
+        e
+    };
+    match sc.mapping {
+        Mapping::F2 | Mapping::Split => {
+            let mut t_ift = T2 {
+                compat: COMPAT_IFT,
+                default_format: 3,
+                template: b"p/{id}".to_vec(),
+                entries: vec![],
+                string_data: None,
+                cff_off,
+                cff2_off,
+            };
+            let mut t_iftx = T2 {
+                compat: COMPAT_IFTX,
+                default_format: 3,
+                template: b"q/{id}".to_vec(),
+                entries: vec![],
+                string_data: None,
+                cff_off: None,
+                cff2_off: None,
+            };
+            let (mut last_a, mut last_b) = (0i64, 0i64);
+            let mut where_: Vec<(bool, usize)> = vec![];
+            for i in 0..n {
+                let in_x = sc.mapping == Mapping::Split && i % 2 == 1;
+                if in_x {
+                    where_.push((true, t_iftx.entries.len()));
+                    let e = entry(i, &mut last_b);
+                    t_iftx.entries.push(e);
+                } else {
+                    where_.push((false, t_ift.entries.len()));
+                    let e = entry(i, &mut last_a);
+                    t_ift.entries.push(e);
+                }
+            }
+            let ea = encode_t2(&t_ift);
+            let eb = encode_t2(&t_iftx);
+            for i in 0..n {
+                let (x, k) = where_[i];
+                let (t, enc) = if x { (&t_iftx, &eb) } else { (&t_ift, &ea) };
+                uris[i] = expand_uri(&t.template, &Id::Num(ids[i]));
+                tables[i] = if x { IFTX } else { IFT };
+                bits[i] = enc.entry_starts[k] * 8 + 6;
+            }
+            reference.others.insert(IFT, ea.bytes);
+            if sc.mapping == Mapping::Split {
+                reference.others.insert(IFTX, eb.bytes);
+            }
+        }
+        Mapping::F1 => {
+            let mut entry_index = vec![0u16; NG - 1];
+            for i in 0..n {
+                entry_index[i] = i as u16 + 1;
+            }
+            let t = T1 {
+                compat: COMPAT_IFT,
+                max_entry_index: n as u16,
+                max_glyph_map_entry_index: n as u16,
+                glyph_count: NG as u32,
+                first_mapped_glyph: 1,
+                entry_index,
+                feature_map: None,
+                applied: vec![0; bitmap_len(n as u16)],
+                template: b"p/{id}".to_vec(),
+                patch_format: 3,
+                cff_off,
+                cff2_off,
+            };
+            let enc = encode_t1(&t);
+            for i in 0..n {
+                uris[i] = expand_uri(&t.template, &Id::Num(i as u32 + 1));
+                bits[i] = enc.applied_start * 8 + i + 1;
+            }
+            reference.others.insert(IFT, enc.bytes);
+        }
+    }
+    let font = encode_font(&reference, &sc.base);
+    Built {
+        font,
+        reference,
+        uris,
+        tables,
+        bits,
+        cps,
+    }
+}
+
+// ---------------------------------------------------------------------------
+// one execution = (scenario, id permutation, ordered partition, fault)
+// ---------------------------------------------------------------------------
+
+pub fn permutations(n: usize) -> Vec<Vec<usize>> {
+    fn rec(cur: &mut Vec<usize>, used: &mut Vec<bool>, out: &mut Vec<Vec<usize>>) {
+        if cur.len() == used.len() {
+            out.push(cur.clone());
+            return;
+        }
+        for i in 0..used.len() {
+            if !used[i] {
+                used[i] = true;
+                cur.push(i);
+                rec(cur, used, out);
+                cur.pop();
+                used[i] = false;
+            }
+        }
+    }
+    let mut out = vec![];
+    rec(&mut vec![], &mut vec![false; n], &mut out);
+    out
+}
+
+/// all ordered partitions of {0..n} into non-empty blocks (sequence of calls)
+pub fn ordered_partitions(n: usize) -> Vec<Vec<Vec<usize>>> {
+    // assign each element a block number; keep assignments whose used blocks are exactly 0..k
+    let mut out = vec![];
+    let total = (n as u32).pow(n as u32).max(1);
+    for code in 0..total {
+        let mut c = code;
+        let asg: Vec<usize> = (0..n)
+            .map(|_| {
+                let v = (c % n as u32) as usize;
+                c /= n as u32;
+                v
+            })
+            .collect();
+        let k = asg.iter().max().map(|m| m + 1).unwrap_or(0);
+        if (0..k).all(|b| asg.contains(&b)) {
+            out.push((0..k).map(|b| (0..n).filter(|i| asg[*i] == b).collect()).collect());
+        }
+    }
+    out.sort();
+    out.dedup();
+    out
+}
+
+#[derive(Default)]
+pub struct Local {
+    pub all: HashSet<u64>,
+    pub nontrivial: HashSet<u64>,
+    pub evals: u64,
+    pub applies: u64,
+    pub oversize_ok: u64,
+    pub oversize_err: u64,
+    pub faults_injected: u64,
+    pub expected_err_runs: u64,
+    pub width_dependent: u64,
+}
+
+pub struct Ctx<'a> {
+    pub run: &'a Run,
+    pub sink: Mutex<Local>,
+}
+impl Ctx<'_> {
+    pub fn merge(&self, l: Local) {
+        let mut g = self.sink.lock().unwrap();
+        g.all.extend(l.all);
+        g.nontrivial.extend(l.nontrivial);
+        g.evals += l.evals;
+        g.applies += l.applies;
+        g.oversize_ok += l.oversize_ok;
+        g.oversize_err += l.oversize_err;
+        g.faults_injected += l.faults_injected;
+        g.expected_err_runs += l.expected_err_runs;
+        g.width_dependent += l.width_dependent;
+    }
+}
+
+fn sc_sig(sc: &Scenario) -> String {
+    let tabs: Vec<String> = {
+        let mut t: Vec<TagB> = sc.patches.iter().flat_map(|p| p.tables.iter().copied()).collect();
+        t.sort();
+        t.dedup();
+        t.iter().map(tag_str).collect()
+    };
+    format!("{:?}/{:?} tables={}", sc.base.kind, sc.mapping, tabs.join("+"))
+}
+
+pub struct Outcome {
+    /// table map of the final font (head checksum zeroed) when every round succeeded
+    pub final_tables: Option<BTreeMap<TagB, Vec<u8>>>,
+    /// the reference state the final font was compared with
+    pub final_ref: Option<RefFont>,
+    /// some round switched an offset array to a wider type
+    pub widened: bool,
+}
+impl Outcome {
+    fn none() -> Outcome {
+        Outcome { final_tables: None, final_ref: None, widened: false }
+    }
+}
+
+fn widths(f: &RefFont) -> (Option<bool>, Option<bool>, Option<u8>, Option<u8>) {
+    (
+        f.glyf.as_ref().map(|t| t.long),
+        f.gvar.as_ref().map(|t| t.long),
+        f.cff.as_ref().map(|t| t.off_size),
+        f.cff2.as_ref().map(|t| t.off_size),
+    )
+}
+
+/// glyph data equal up to one trailing zero pad byte (what short, divided offsets add)
+fn logically_equal(a: &RefFont, b: &RefFont) -> bool {
+    let eq = |x: &Option<OffT>, y: &Option<OffT>| match (x, y) {
+        (None, None) => true,
+        (Some(x), Some(y)) => {
+            x.slices.len() == y.slices.len()
+                && x.slices.iter().zip(&y.slices).all(|(p, q)| {
+                    let (s, l) = if p.len() <= q.len() { (p, q) } else { (q, p) };
+                    s == l || (s.len() + 1 == l.len() && l[s.len()] == 0 && l[..s.len()] == s[..])
+                })
+        }
+        _ => false,
+    };
+    eq(&a.glyf, &b.glyf) && eq(&a.gvar, &b.gvar) && eq(&a.cff, &b.cff) && eq(&a.cff2, &b.cff2)
+}
+
+/// Execute one tape. Rounds = blocks of the partition; round r asks for the code points of its block
+/// (plus those of earlier blocks: they are applied already), supplies the patch bytes, applies.
+pub fn execute(
+    ctx: &Ctx,
+    sc: &Scenario,
+    tape: &mut Tape,
+    perms: &[Vec<usize>],
+    parts: &[Vec<Vec<usize>>],
+    local: &mut Local,
+) -> Outcome {
+    use incremental_font_transfer::patchmap::SubsetDefinition;
+    let n = sc.patches.len();
+    let perm_i = if sc.mapping == Mapping::F1 { 0 } else { tape.choose(perms.len() as u32) as usize };
+    let part_i = tape.choose(parts.len() as u32) as usize;
+    // faults only for the identity id assignment (the decoder does not see ids)
+    let n_dec = n as u32;
+    let fault_c = if perm_i == 0 { tape.choose(1 + (n_dec + 1) * FAULT_KINDS.len() as u32) } else { 0 };
+    let fault = if fault_c == 0 {
+        None
+    } else {
+        let c = fault_c - 1;
+        Some((1 + c / FAULT_KINDS.len() as u32, FAULT_KINDS[(c % FAULT_KINDS.len() as u32) as usize]))
+    };
+    let perm = &perms[perm_i];
+    let part = &parts[part_i];
+    let ids: Vec<u32> = (0..n).map(|i| perm[i] as u32 + 1).collect();
+    let built = build_scenario(sc, &ids);
+    let case = || {
+        json!({"kind":"gk","scenario": sc, "tape": tape_choices(perm_i, part_i, fault_c, sc.mapping), "ids": ids,
+               "partition": part, "fault": fault.map(|(k, f)| json!({"call": k, "kind": format!("{f:?}")}))})
+    };
+    local.evals += 1;
+    let mut compat: HashMap<TagB, [u32; 4]> = HashMap::new();
+    compat.insert(IFT, COMPAT_IFT);
+    if sc.mapping == Mapping::Split {
+        compat.insert(IFTX, COMPAT_IFTX);
+    }
+    let decoder = Decoder::new(fault);
+    let mut font = built.font.clone();
+    let mut reference = built.reference.clone();
+    let mut map: HashMap<String, UriStatus> = HashMap::new();
+    map.insert("unrelated".into(), UriStatus::Pending(vec![1, 2, 3]));
+    let mut asked: Vec<u32> = vec![];
+    let mut h = Fnv::new();
+    h.str(&sc_sig(sc));
+    h.u64(fault.map(|(k, f)| k as u64 * 16 + f as u64).unwrap_or(0));
+    let mut all_ok = true;
+    let mut any_applied = false;
+    let mut retried = false;
+    let mut widened = false;
+    let mut r = 0;
+    while r < part.len() {
+        let block = &part[r];
+        asked.extend(block.iter().map(|i| built.cps[*i]));
+        let sd = SubsetDefinition::codepoints(asked.iter().copied().collect());
+        // expected group of this round: the block's patches, in URI order within each mapping table
+        let mut order: Vec<usize> = block.clone();
+        order.sort_by(|a, b| (built.tables[*a] == IFTX, &built.uris[*a]).cmp(&(built.tables[*b] == IFTX, &built.uris[*b])));
+        let step = guard(|| {
+            let fr = FontRef::new(&font).map_err(|e| format!("font: {e}"))?;
+            let group = PatchGroup::select_next_patches(fr, &sd).map_err(|e| format!("select: {e}"))?;
+            let uris: Vec<String> = group.uris().map(|s| s.to_string()).collect();
+            Ok::<_, String>((group, uris))
+        });
+        let (group, uris) = match step {
+            Err(p) => {
+                ctx.run.violation(
+                    &format!("select_next_patches panics: {} at {}", p.kind(), p.site()),
+                    &p.message,
+                    case(),
+                );
+                return Outcome::none();
+            }
+            Ok(Err(e)) => {
+                ctx.run.violation(
+                    &format!("select_next_patches fails on a harness font: {}", sc_sig(sc)),
+                    &e,
+                    case(),
+                );
+                return Outcome::none();
+            }
+            Ok(Ok(x)) => x,
+        };
+        let want_uris: Vec<String> = order.iter().map(|i| built.uris[*i].clone()).collect();
+        if uris != want_uris {
+            ctx.run.violation(
+                &format!("select_next_patches does not offer exactly the un-applied patches of the request: {}", sc_sig(sc)),
+                &format!("round {r}: got {:?} want {:?}", uris, want_uris),
+                case(),
+            );
+            return Outcome::none();
+        }
+        // the client fetches what it does not have yet
+        for i in block {
+            map.insert(built.uris[*i].clone(), UriStatus::Pending(sc.patches[*i].bytes()));
+        }
+        let before = snapshot(&map);
+        let calls_before = decoder.calls.get();
+        let hit_before = decoder.fault_hit.get();
+        let res = guard(|| group.apply_next_patches_with_decoder(&mut map, &decoder));
+        local.applies += 1;
+        let after = snapshot(&map);
+        let fault_now = decoder.fault_hit.get() && !hit_before;
+        let fault_kind = fault.map(|f| f.1);
+        // reference for this round
+        let ps: Vec<&GkPatch> = order.iter().map(|i| &sc.patches[*i]).collect();
+        let bits: Vec<(TagB, usize)> = order.iter().map(|i| (built.tables[*i], built.bits[*i])).collect();
+        let pt: Vec<TagB> = order.iter().map(|i| built.tables[*i]).collect();
+        let mut next_ref = reference.clone();
+        let want = ref_apply_gk(&mut next_ref, &ps, &bits, &compat, &pt);
+        let res = match res {
+            Err(p) => {
+                ctx.run.violation(
+                    &format!("apply_next_patches_with_decoder panics: {} at {}", p.kind(), p.site()),
+                    &format!("{} ({}:{})", p.message, p.file, p.line),
+                    case(),
+                );
+                return Outcome::none();
+            }
+            Ok(r) => r,
+        };
+        if fault_now {
+            local.faults_injected += 1;
+        }
+        match (&res, fault_now, fault_kind) {
+            (Ok(_), true, Some(k)) if k != FaultKind::Oversize => {
+                ctx.run.violation(
+                    &format!("decoder failure {:?} does not produce an error: {}", k, sc_sig(sc)),
+                    &format!("round {r}: decoder failed at call {} but the result is Ok", fault.unwrap().0),
+                    case(),
+                );
+                return Outcome::none();
+            }
+            _ => {}
+        }
+        match res {
+            Err(e) => {
+                if before != after {
+                    ctx.run.violation(
+                        &format!(
+                            "UriStatus map modified although the call failed ({}): {}",
+                            err_class(&e),
+                            sc_sig(sc)
+                        ),
+                        &format!("round {r}: error {e:?}; before={} entries, after differs: {:?}", before.len(),
+                                 after.iter().map(|(k, v)| (k.clone(), v.is_some())).collect::<Vec<_>>()),
+                        case(),
+                    );
+                    return Outcome::none();
+                }
+                h.str("err");
+                h.str(&err_class(&e));
+                if fault_now {
+                    if fault_kind == Some(FaultKind::Oversize) {
+                        local.oversize_err += 1;
+                    }
+                    // failure leaves nothing behind: retry the same round with the (now past its fault) decoder
+                    if !retried {
+                        retried = true;
+                        asked.truncate(asked.len() - block.len());
+                        continue;
+                    }
+                }
+                if want.is_ok() {
+                    let gvar_empty = next_ref.gvar.as_ref().map(|t| t.slices.iter().all(|s| s.is_empty())).unwrap_or(false)
+                        && ps.iter().any(|p| p.tables.contains(&GVAR));
+                    if gvar_empty && matches!(e, PatchingError::SerializationError(_)) {
+                        // one defect class, independent of base kind / mapping
+                        ctx.run.violation(
+                            "glyph keyed apply fails (SerializationError) when the patched gvar has no glyph variation data at all",
+                            &format!("{}: round {r}: {e:?}", sc_sig(sc)),
+                            case(),
+                        );
+                    } else {
+                        ctx.run.violation(
+                            &format!("apply fails ({}) where the reference applies: {}", err_class(&e), sc_sig(sc)),
+                            &format!("round {r}: {e:?}"),
+                            case(),
+                        );
+                    }
+                } else {
+                    local.expected_err_runs += 1;
+                }
+                all_ok = false;
+                let _ = calls_before;
+                break;
+            }
+            Ok(new_font) => {
+                if fault_now && fault_kind == Some(FaultKind::Oversize) {
+                    // a misbehaving decoder: only totality and bookkeeping are judged, not the content
+                    local.oversize_ok += 1;
+                    h.str("oversize-ok");
+                    let ok = order.iter().all(|i| after.iter().any(|(k, v)| k == &built.uris[*i] && v.is_none()));
+                    if !ok {
+                        ctx.run.violation(
+                            &format!("UriStatus map not updated after a successful call: {}", sc_sig(sc)),
+                            "oversize decoder output accepted but URIs not marked applied",
+                            case(),
+                        );
+                    }
+                    all_ok = false;
+                    break;
+                }
+                if let Err(re) = &want {
+                    ctx.run.violation(
+                        &format!("apply succeeds where the reference expects an error ({re:?}): {}", sc_sig(sc)),
+                        &format!("round {r}"),
+                        case(),
+                    );
+                    return Outcome::none();
+                }
+                // exactly the applied URIs flipped
+                let mut exp = before.clone();
+                for (k, v) in exp.iter_mut() {
+                    if order.iter().any(|i| &built.uris[*i] == k) {
+                        *v = None;
+                    }
+                }
+                if exp != after {
+                    ctx.run.violation(
+                        &format!("UriStatus map after success is not 'exactly the applied URIs flipped': {}", sc_sig(sc)),
+                        &format!("round {r}: after={:?}", after.iter().map(|(k, v)| (k.clone(), v.is_some())).collect::<Vec<_>>()),
+                        case(),
+                    );
+                    return Outcome::none();
+                }
+                if let Err((class, detail)) = compare(&new_font, &next_ref) {
+                    ctx.run.violation(
+                        &format!("glyph keyed result: {class}: {}", sc_sig(sc)),
+                        &format!("round {r} (patches {:?}): {detail}", order),
+                        case(),
+                    );
+                    return Outcome::none();
+                }
+                if widths(&reference) != widths(&next_ref) {
+                    widened = true;
+                }
+                reference = next_ref;
+                font = new_font;
+                any_applied = true;
+                h.str("ok");
+                h.u64(order.len() as u64);
+            }
+        }
+        r += 1;
+    }
+    // widening / kind part of the digest
+    if let Some(t) = &reference.gvar {
+        h.u64(t.long as u64);
+    }
+    if let Some(t) = reference.cff.as_ref().or(reference.cff2.as_ref()) {
+        h.u64(t.off_size as u64);
+    }
+    let mut gids: Vec<u32> = sc.patches.iter().flat_map(|p| p.gids.iter().copied()).collect();
+    gids.sort();
+    gids.dedup();
+    for g in gids {
+        h.u64(g as u64);
+    }
+    let dg = h.finish();
+    local.all.insert(dg);
+    if any_applied {
+        local.nontrivial.insert(dg);
+    }
+    Outcome {
+        final_tables: if all_ok { table_map(&font).ok() } else { None },
+        final_ref: if all_ok { Some(reference) } else { None },
+        widened,
+    }
+}
+
+fn tape_choices(perm_i: usize, part_i: usize, fault_c: u32, mapping: Mapping) -> Vec<u32> {
+    let mut v = vec![];
+    if mapping != Mapping::F1 {
+        v.push(perm_i as u32);
+    }
+    v.push(part_i as u32);
+    if perm_i == 0 {
+        v.push(fault_c);
+    }
+    v
+}
+
+pub fn err_class(e: &PatchingError) -> String {
+    match e {
+        PatchingError::PatchParsingFailed(_) => "PatchParsingFailed".into(),
+        PatchingError::FontParsingFailed(_) => "FontParsingFailed".into(),
+        PatchingError::SerializationError(_) => "SerializationError".into(),
+        PatchingError::IncompatiblePatch => "IncompatiblePatch".into(),
+        PatchingError::NonIncrementalFont => "NonIncrementalFont".into(),
+        PatchingError::InvalidPatch(m) => format!("InvalidPatch({m})"),
+        PatchingError::EmptyPatchList => "EmptyPatchList".into(),
+        PatchingError::InternalError => "InternalError".into(),
+        PatchingError::MissingPatches => "MissingPatches".into(),
+    }
+}
+
+/// Explore every (id permutation, ordered partition, fault) of one scenario; all fault-free complete
+/// runs must end in identical tables.
+pub fn explore_scenario(ctx: &Ctx, sc: &Scenario, local: &mut Local) {
+    let n = sc.patches.len();
+    let perms = permutations(n);
+    let parts = ordered_partitions(n);
+    let mut finals: Vec<(Vec<u32>, BTreeMap<TagB, Vec<u8>>, RefFont, bool)> = vec![];
+    let agreeing = patches_agree(&sc.patches);
+    let r = explore_full(u64::MAX, |tape| {
+        let out = execute(ctx, sc, tape, &perms, &parts, local);
+        if let (Some(t), Some(rf)) = (out.final_tables, out.final_ref) {
+            finals.push((tape.choices.clone(), t, rf, out.widened));
+        }
+        true
+    });
+    if let Err(d) = r {
+        ctx.run.machinery_error(&format!("tape divergence in C18 gk: {}", d.0));
+    }
+    if agreeing && finals.len() > 1 {
+        // the mapping tables hold the ids (which differ between id permutations): they are compared
+        // between runs of the same permutation only; every other table between all runs
+        let perm_of = |tp: &Vec<u32>| if sc.mapping == Mapping::F1 { 0 } else { tp[0] };
+        for (tp, t, rf, widened) in &finals[1..] {
+            let same_perm = finals.iter().find(|x| perm_of(&x.0) == perm_of(tp)).unwrap();
+            let differs = |a: &BTreeMap<TagB, Vec<u8>>, b: &BTreeMap<TagB, Vec<u8>>, mapping: bool| {
+                a.keys().chain(b.keys()).any(|k| ((*k == IFT || *k == IFTX) == mapping) && a.get(k) != b.get(k))
+            };
+            if differs(t, &finals[0].1, false) || differs(t, &same_perm.1, true) {
+                let diff: Vec<String> = t
+                    .iter()
+                    .filter(|(k, v)| {
+                        let other = if **k == IFT || **k == IFTX { &same_perm.1 } else { &finals[0].1 };
+                        other.get(*k) != Some(v)
+                    })
+                    .map(|(k, _)| tag_str(k))
+                    .collect();
+                let only_width = (*widened || finals[0].3)
+                    && logically_equal(rf, &finals[0].2)
+                    && !differs(t, &same_perm.1, true)
+                    && diff.iter().all(|d| ["glyf", "loca", "gvar", "CFF ", "CFF2"].contains(&d.as_str()));
+                let identity = if only_width {
+                    local.width_dependent += 1;
+                    format!(
+                        "grouping of agreeing glyph keyed patches changes table bytes across an offset widening (pad bytes of the short phase kept / width never narrowed): {:?}",
+                        sc.base.kind
+                    )
+                } else {
+                    format!("order/grouping of agreeing glyph keyed patches changes the result: {}", sc_sig(sc))
+                };
+                ctx.run.violation(
+                    &identity,
+                    &format!("tapes {:?} and {:?} differ in tables {:?}", finals[0].0, tp, diff),
+                    json!({"kind":"gk","scenario": sc, "tape": tp, "tape2": finals[0].0}),
+                );
+                break;
+            }
+        }
+    }
+}
+
+fn patches_agree(ps: &[GkPatch]) -> bool {
+    let mut seen: HashMap<(TagB, u32), &Vec<u8>> = HashMap::new();
+    for p in ps {
+        for (ti, t) in p.tables.iter().enumerate() {
+            for (gi, g) in p.gids.iter().enumerate() {
+                if let Some(prev) = seen.insert((*t, *g), &p.data[ti][gi]) {
+                    if prev != &p.data[ti][gi] {
+                        return false;
+                    }
+                }
+            }
+        }
+    }
+    true
+}
+
+// ---------------------------------------------------------------------------
+// alphabets
+// ---------------------------------------------------------------------------
+
+/// new data of glyph g in table `tag` under length pattern `world`
+pub fn world_data(world: usize, tag: &TagB, g: u32) -> Vec<u8> {
+    const LENS: [usize; 4] = [0, 1, 2, 7];
+    let len = match world {
+        0 => LENS[(g as usize) % 4],
+        1 => LENS[(g as usize + 1) % 4],
+        2 => LENS[(g as usize * 3 + 2) % 4],
+        3 => 7,
+        4 => 0,
+        _ => 1,
+    };
+    let t = tag[3].wrapping_add(tag[0]);
+    (0..len).map(|i| 0x40 ^ t ^ ((g as u8) << 3) ^ i as u8).collect()
+}
+
+pub fn gk_patch(world: usize, gids: &[u32], tables: &[TagB], wide: bool, compat: [u32; 4]) -> GkPatch {
+    let mut tables = tables.to_vec();
+    tables.sort();
+    GkPatch {
+        compat,
+        wide,
+        gids: gids.to_vec(),
+        data: tables
+            .iter()
+            .map(|t| gids.iter().map(|g| world_data(world, t, *g)).collect())
+            .collect(),
+        tables,
+    }
+}
+
+/// all non-empty subsets of {0..6} with at most 3 members, ascending
+pub fn gid_sets() -> Vec<Vec<u32>> {
+    let mut out = vec![];
+    for mask in 1u32..64 {
+        if mask.count_ones() <= 3 {
+            out.push((0..6).filter(|g| mask & (1 << g) != 0).collect());
+        }
+    }
+    out
+}
+
+pub fn base_specs() -> Vec<BaseSpec> {
+    let even = vec![4usize, 2, 0, 6, 2, 4];
+    let any = vec![3usize, 1, 0, 5, 2, 4];
+    let mk = |kind, lens: &Vec<usize>, off_size| BaseSpec {
+        kind,
+        lens: lens.clone(),
+        off_size,
+        gvar_tuples_last: false,
+    };
+    vec![
+        mk(BaseKind::GlyfShort, &even, 0),
+        mk(BaseKind::GlyfLong, &any, 0),
+        mk(BaseKind::GvarShort, &even, 0),
+        mk(BaseKind::GvarLong, &any, 0),
+        mk(BaseKind::GlyfGvar, &even, 0),
+        mk(BaseKind::Cff, &any, 1),
+        mk(BaseKind::Cff2, &any, 2),
+    ]
+}
+
+pub fn tables_for(kind: BaseKind) -> Vec<Vec<TagB>> {
+    match kind {
+        BaseKind::GlyfShort | BaseKind::GlyfLong => vec![vec![GLYF], vec![GLYF, ZZZZ]],
+        BaseKind::GvarShort | BaseKind::GvarLong => vec![vec![GVAR]],
+        BaseKind::GlyfGvar => vec![vec![GLYF, GVAR], vec![GVAR], vec![GLYF]],
+        BaseKind::Cff => vec![vec![CFF]],
+        BaseKind::Cff2 => vec![vec![CFF2, ZZZZ]],
+    }
+}
+
+fn compat_of(mapping: Mapping, i: usize) -> [u32; 4] {
+    if mapping == Mapping::Split && i % 2 == 1 {
+        COMPAT_IFTX
+    } else {
+        COMPAT_IFT
+    }
+}
+
+// ---------------------------------------------------------------------------
+// body
+// ---------------------------------------------------------------------------
+
+fn body(run: &Run, replay: Option<&Value>) {
+    run.rule("a case is one tape: (base font kind, glyph-data world, patch set, id permutation = order inside a call, ordered partition into calls, decoder fault (call k, kind)) or one table-keyed patch x compat x fault; distinct = digest of (base kind, mapping kind, patched gid set, tables, widening outcome, fault position/kind, per round outcome); non-trivial = at least one patch was applied and its result compared with the reference");
+    run.assume("reference patch semantics (harness): per table the first patch in application order that lists a glyph supplies its data, other glyphs keep their stored bytes; data is zero padded to even length while the offsets are short (divided by two); gvar switches to long offsets and CFF/CFF2 to the next sufficient offSize exactly when the new total exceeds the current maximum (0x1FFFE; 2^(8*offSize)-2); glyf/loca never changes width: the code documents that as unsupported and an error is accepted there");
+    run.assume("head.checkSumAdjustment (bytes 8..12) is rewritten by write-fonts' FontBuilder and excluded from 'byte-identical'");
+    run.assume("decoders are harness pass-through implementations of SharedBrotliDecoder (uncompressed bodies); real brotli streams are covered only by the repository's fixtures");
+    run.assume("read-fonts FontRef is trusted to list the tables of a result font; offset arrays (loca, gvar, CFF INDEX) are re-parsed by harness code");
+    let ctx = Ctx {
+        run,
+        sink: Mutex::new(Local::default()),
+    };
+    if let Some(case) = replay {
+        replay_case(&ctx, case);
+        return;
+    }
+    space_gk(&ctx);
+    space_wide(&ctx);
+    space_misc(&ctx);
+    space_tk(&ctx);
+    let l = std::mem::take(&mut *ctx.sink.lock().unwrap());
+    run.evals(l.evals);
+    run.trans(l.applies);
+    run.observe_many(&l.all, &l.nontrivial);
+    run.count("apply_calls", l.applies);
+    run.count("decoder_faults_injected", l.faults_injected);
+    run.count("oversize_decoder_output_accepted_ok", l.oversize_ok);
+    run.count("oversize_decoder_output_rejected_err", l.oversize_err);
+    run.count("runs_ending_in_an_error_the_reference_expects", l.expected_err_runs);
+    run.count("scenarios_where_grouping_changes_bytes_only_through_widening", l.width_dependent);
+}
+
+fn replay_case(ctx: &Ctx, case: &Value) {
+    let kind = case["kind"].as_str().unwrap_or("");
+    let mut l = Local::default();
+    match kind {
+        "gk" => {
+            let sc: Scenario = serde_json::from_value(case["scenario"].clone()).expect("scenario");
+            let n = sc.patches.len();
+            let perms = permutations(n);
+            let parts = ordered_partitions(n);
+            for key in ["tape", "tape2"] {
+                if let Some(t) = case[key].as_array() {
+                    let prefix: Vec<u32> = t.iter().map(|v| v.as_u64().unwrap() as u32).collect();
+                    let mut tape = Tape::new(&prefix);
+                    execute(ctx, &sc, &mut tape, &perms, &parts, &mut l);
+                }
+            }
+            // order independence needs the whole scenario
+            if case.get("tape2").is_some() {
+                explore_scenario(ctx, &sc, &mut l);
+            }
+        }
+        "tk" => {
+            let tc: TkCase = serde_json::from_value(case["tk"].clone()).expect("tk");
+            run_tk(ctx, &tc, &mut l);
+        }
+        "misc" => {
+            space_misc(ctx);
+        }
+        _ => println!("unknown replay kind {kind}"),
+    }
+}
+
+fn space_gk(ctx: &Ctx) {
+    let run = ctx.run;
+    let thorough = run.tier == Tier::Thorough;
+    let sets = gid_sets();
+    run.bound("gid_sets", json!(sets.len()));
+    let specs = base_specs();
+    run.bound("base_kinds", json!(specs.iter().map(|s| format!("{:?}", s.kind)).collect::<Vec<_>>()));
+    let worlds: Vec<usize> = if thorough { vec![0, 1, 2, 3, 4, 5] } else { vec![0, 2, 4] };
+    run.bound("glyph_data_worlds", json!(worlds.len()));
+    run.bound("glyph_data_lengths", json!([0, 1, 2, 7]));
+    // triples come from a sub-alphabet of gid sets
+    let tri_sets: Vec<Vec<u32>> = vec![
+        vec![0], vec![2], vec![5], vec![0, 1], vec![1, 2], vec![2, 5], vec![0, 5], vec![0, 1, 2], vec![1, 3, 5], vec![3, 4, 5],
+    ];
+    let mut scenarios: Vec<Scenario> = vec![];
+    for spec in &specs {
+        for (tli, tables) in tables_for(spec.kind).iter().enumerate() {
+            for &world in &worlds {
+                for mapping in [Mapping::F2, Mapping::F1, Mapping::Split] {
+                    // singles: every gid set, u16 and u24 gids
+                    for s in &sets {
+                        for wide in [false, true] {
+                            if mapping != Mapping::F2 && (wide || tli > 0) {
+                                continue;
+                            }
+                            scenarios.push(Scenario {
+                                base: spec.clone(),
+                                mapping,
+                                patches: vec![gk_patch(world, s, tables, wide, COMPAT_IFT)],
+                                note: "single".into(),
+                            });
+                        }
+                    }
+                    if tli > 0 && !thorough {
+                        continue;
+                    }
+                    // pairs (unordered, including a set with itself): order comes from the id permutation
+                    let pair_sets: &Vec<Vec<u32>> = if thorough || mapping == Mapping::F2 { &sets } else { &tri_sets };
+                    for (i, a) in pair_sets.iter().enumerate() {
+                        for b in &pair_sets[i..] {
+                            if !thorough && world != 0 && !a.iter().any(|g| b.contains(g)) && a.len() + b.len() > 3 {
+                                continue;
+                            }
+                            scenarios.push(Scenario {
+                                base: spec.clone(),
+                                mapping,
+                                patches: vec![
+                                    gk_patch(world, a, tables, false, compat_of(mapping, 0)),
+                                    gk_patch(world, b, tables, true, compat_of(mapping, 1)),
+                                ],
+                                note: "pair".into(),
+                            });
+                        }
+                    }
+                    // triples
+                    if !thorough && (world != 0 || mapping == Mapping::F1) {
+                        continue;
+                    }
+                    for i in 0..tri_sets.len() {
+                        for j in i + 1..tri_sets.len() {
+                            for k in j + 1..tri_sets.len() {
+                                // second patch of a triple lists only the first table (mixed table lists)
+                                let t2: Vec<TagB> = vec![tables[0]];
+                                scenarios.push(Scenario {
+                                    base: spec.clone(),
+                                    mapping,
+                                    patches: vec![
+                                        gk_patch(world, &tri_sets[i], tables, false, compat_of(mapping, 0)),
+                                        gk_patch(world, &tri_sets[j], &t2, false, compat_of(mapping, 1)),
+                                        gk_patch(world, &tri_sets[k], tables, true, compat_of(mapping, 2)),
+                                    ],
+                                    note: "triple".into(),
+                                });
+                            }
+                        }
+                    }
+                }
+            }
+        }
+    }
+    run.count("gk_scenarios", scenarios.len() as u64);
+    for note in ["single", "pair", "triple"] {
+        run.count(
+            &format!("gk_scenarios_{note}"),
+            scenarios.iter().filter(|s| s.note == note).count() as u64,
+        );
+    }
+    run.bound("orders_per_triple", json!({"id_permutations": 6, "ordered_partitions": ordered_partitions(3).len()}));
+    run.bound("fault_positions", json!("every decoder call 1..=n and n+1 (never reached), 6 DecodeError kinds + oversize output, for every ordered partition with the identity id assignment"));
+    run.sample(json!({"space":"gk","scenario": scenarios[scenarios.len() / 2]}));
+    run.sample(json!({"space":"gk","scenario": scenarios[3]}));
+    let scenarios = &scenarios;
+    par_for(scenarios.len(), |i| {
+        let mut l = Local::default();
+        explore_scenario(ctx, &scenarios[i], &mut l);
+        ctx.merge(l);
+    });
+}
+
+/// totals on both sides of the offset-width limits
+fn space_wide(ctx: &Ctx) {
+    let run = ctx.run;
+    let mut scenarios = vec![];
+    // short glyf / gvar: the last glyph is big; patching gid 0 (old stored length 4) with 0/1/2/7/8 bytes
+    for kind in [BaseKind::GlyfShort, BaseKind::GvarShort, BaseKind::GvarLong, BaseKind::GlyfGvar] {
+        for big in (LIMIT_SHORT - 34..=LIMIT_SHORT - 14).step_by(2) {
+            for tuples_last in [false, true] {
+                if tuples_last && !matches!(kind, BaseKind::GvarShort) {
+                    continue;
+                }
+                let spec = BaseSpec {
+                    kind,
+                    lens: vec![4, 2, 0, 6, 2, big],
+                    off_size: 0,
+                    gvar_tuples_last: tuples_last,
+                };
+                for tables in tables_for(kind).iter().take(1) {
+                    for gids in [vec![0u32], vec![1, 2], vec![0, 3], vec![5], vec![0, 1, 2]] {
+                        for world in [3usize, 0, 4] {
+                            scenarios.push(Scenario {
+                                base: spec.clone(),
+                                mapping: Mapping::F2,
+                                patches: vec![gk_patch(world, &gids, tables, false, COMPAT_IFT)],
+                                note: "wide-single".into(),
+                            });
+                        }
+                    }
+                    // two patches, together crossing the limit; both orders and both groupings
+                    scenarios.push(Scenario {
+                        base: spec.clone(),
+                        mapping: Mapping::F2,
+                        patches: vec![
+                            gk_patch(3, &[1, 2], tables, false, COMPAT_IFT),
+                            gk_patch(3, &[2, 4], tables, false, COMPAT_IFT),
+                        ],
+                        note: "wide-pair".into(),
+                    });
+                }
+            }
+        }
+    }
+    // CFF / CFF2: offSize 1 limit (254) and offSize 2 limit (65534)
+    for (kind, tag) in [(BaseKind::Cff, CFF), (BaseKind::Cff2, CFF2)] {
+        for (off_size, limit) in [(1u8, 254usize), (2, 65534), (3, 300)] {
+            for big in limit - 31..=limit - 11 {
+                let spec = BaseSpec {
+                    kind,
+                    lens: vec![3, 1, 0, 5, 2, big],
+                    off_size,
+                    gvar_tuples_last: false,
+                };
+                for gids in [vec![0u32], vec![1, 2], vec![0, 3], vec![5]] {
+                    for world in [3usize, 0] {
+                        scenarios.push(Scenario {
+                            base: spec.clone(),
+                            mapping: Mapping::F2,
+                            patches: vec![gk_patch(world, &gids, &[tag], false, COMPAT_IFT)],
+                            note: "wide-cff".into(),
+                        });
+                    }
+                }
+            }
+        }
+    }
+    run.count("wide_scenarios", scenarios.len() as u64);
+    run.sample(json!({"space":"wide","base": scenarios[1].base, "gids": scenarios[1].patches[0].gids}));
+    let scenarios = &scenarios;
+    par_for(scenarios.len(), |i| {
+        let mut l = Local::default();
+        explore_scenario(ctx, &scenarios[i], &mut l);
+        ctx.merge(l);
+    });
+}
+
+/// hand-picked corner scenarios, each still fully explored over orders/groupings/faults
+fn space_misc(ctx: &Ctx) {
+    let mut l = Local::default();
+    let specs = base_specs();
+    let mut n = 0u64;
+    for spec in &specs {
+        let tables = &tables_for(spec.kind)[0];
+        for mapping in [Mapping::F2, Mapping::Split] {
+            // (1) compat id differs (per patch position)
+            for bad in 0..2usize {
+                let mut ps = vec![
+                    gk_patch(0, &[0, 1], tables, false, compat_of(mapping, 0)),
+                    gk_patch(0, &[1, 4], tables, false, compat_of(mapping, 1)),
+                ];
+                ps[bad].compat = [7, 7, 7, 7];
+                let sc = Scenario { base: spec.clone(), mapping, patches: ps, note: "compat".into() };
+                explore_scenario(ctx, &sc, &mut l);
+                check_no_decode_on_incompatible(ctx, &sc, &mut l);
+                n += 1;
+            }
+            // (2) disagreeing patches: documented first-applied-wins
+            let mut ps = vec![
+                gk_patch(0, &[1, 2], tables, false, compat_of(mapping, 0)),
+                gk_patch(3, &[2, 3], tables, false, compat_of(mapping, 1)),
+                gk_patch(5, &[1, 2, 3], tables, false, compat_of(mapping, 2)),
+            ];
+            ps.truncate(if mapping == Mapping::F2 { 3 } else { 2 });
+            let sc = Scenario { base: spec.clone(), mapping, patches: ps, note: "disagree".into() };
+            explore_scenario(ctx, &sc, &mut l);
+            check_missing_patch_data(ctx, &sc, &mut l);
+            n += 1;
+            // (3) gid beyond the font
+            let sc = Scenario {
+                base: spec.clone(),
+                mapping,
+                patches: vec![
+                    gk_patch(0, &[0], tables, false, compat_of(mapping, 0)),
+                    gk_patch(0, &[2, 6], tables, true, compat_of(mapping, 1)),
+                ],
+                note: "gid-beyond".into(),
+            };
+            explore_scenario(ctx, &sc, &mut l);
+            n += 1;
+            // (4) patch for a table the font does not have / only unknown tables / no glyphs
+            let other = if tables.contains(&GVAR) { CFF } else { GVAR };
+            let sc = Scenario {
+                base: spec.clone(),
+                mapping,
+                patches: vec![
+                    gk_patch(0, &[0], tables, false, compat_of(mapping, 0)),
+                    gk_patch(0, &[1], &[other], false, compat_of(mapping, 1)),
+                ],
+                note: "missing-table".into(),
+            };
+            explore_scenario(ctx, &sc, &mut l);
+            let sc = Scenario {
+                base: spec.clone(),
+                mapping,
+                patches: vec![
+                    gk_patch(0, &[0, 1], &[ZZZZ], false, compat_of(mapping, 0)),
+                    gk_patch(0, &[], tables, false, compat_of(mapping, 1)),
+                ],
+                note: "unknown-table-and-empty".into(),
+            };
+            explore_scenario(ctx, &sc, &mut l);
+            n += 2;
+        }
+    }
+    ctx.run.count("misc_scenarios", n);
+    ctx.merge(l);
+}
+
+/// a group whose patch data has not all been supplied: error, bookkeeping untouched, nothing decoded
+fn check_missing_patch_data(ctx: &Ctx, sc: &Scenario, l: &mut Local) {
+    use incremental_font_transfer::patchmap::SubsetDefinition;
+    let n = sc.patches.len();
+    let ids: Vec<u32> = (1..=n as u32).collect();
+    let built = build_scenario(sc, &ids);
+    let sd = SubsetDefinition::codepoints(built.cps.iter().copied().collect());
+    for absent in 0..n {
+        let decoder = Decoder::new(None);
+        let mut map: HashMap<String, UriStatus> = HashMap::new();
+        for i in 0..n {
+            if i != absent {
+                map.insert(built.uris[i].clone(), UriStatus::Pending(sc.patches[i].bytes()));
+            }
+        }
+        let before = snapshot(&map);
+        let r = guard(|| {
+            let fr = FontRef::new(&built.font).unwrap();
+            let g = PatchGroup::select_next_patches(fr, &sd).unwrap();
+            g.apply_next_patches_with_decoder(&mut map, &decoder)
+        });
+        l.applies += 1;
+        l.evals += 1;
+        let case = json!({"kind":"misc","scenario": sc, "absent": absent});
+        match r {
+            Ok(Err(_)) => {
+                if snapshot(&map) != before || decoder.calls.get() != 0 {
+                    ctx.run.violation(
+                        &format!("UriStatus map modified or decoder run although patch data is missing: {}", sc_sig(sc)),
+                        &format!("decode calls {}", decoder.calls.get()),
+                        case,
+                    );
+                }
+                l.all.insert(digest_of(&("missing", absent, sc_sig(sc))));
+            }
+            Ok(Ok(_)) => ctx.run.violation(
+                &format!("group applied although the data of one of its patches was never supplied: {}", sc_sig(sc)),
+                "result Ok",
+                case,
+            ),
+            Err(p) => ctx.run.violation(
+                &format!("apply_next_patches_with_decoder panics: {} at {}", p.kind(), p.site()),
+                &p.message,
+                case,
+            ),
+        }
+    }
+}
+
+/// mechanism named by the property: compatibility ids are verified before any decoding
+fn check_no_decode_on_incompatible(ctx: &Ctx, sc: &Scenario, l: &mut Local) {
+    use incremental_font_transfer::patchmap::SubsetDefinition;
+    let n = sc.patches.len();
+    let ids: Vec<u32> = (1..=n as u32).collect();
+    let built = build_scenario(sc, &ids);
+    let sd = SubsetDefinition::codepoints(built.cps.iter().copied().collect());
+    let decoder = Decoder::new(None);
+    let mut map: HashMap<String, UriStatus> = HashMap::new();
+    for i in 0..n {
+        map.insert(built.uris[i].clone(), UriStatus::Pending(sc.patches[i].bytes()));
+    }
+    let before = snapshot(&map);
+    let r = guard(|| {
+        let fr = FontRef::new(&built.font).unwrap();
+        let g = PatchGroup::select_next_patches(fr, &sd).unwrap();
+        g.apply_next_patches_with_decoder(&mut map, &decoder)
+    });
+    l.applies += 1;
+    l.evals += 1;
+    let case = json!({"kind":"misc","scenario": sc});
+    match r {
+        Ok(Err(PatchingError::IncompatiblePatch)) => {
+            if decoder.calls.get() != 0 {
+                ctx.run.violation(
+                    &format!("decoder invoked before every compatibility id was verified: {}", sc_sig(sc)),
+                    &format!("{} decode calls before IncompatiblePatch", decoder.calls.get()),
+                    case.clone(),
+                );
+            }
+        }
+        Ok(Err(e)) => {
+            if decoder.calls.get() != 0 {
+                ctx.run.violation(
+                    &format!("decoder invoked before every compatibility id was verified: {}", sc_sig(sc)),
+                    &format!("{} decode calls, error {e:?}", decoder.calls.get()),
+                    case.clone(),
+                );
+            }
+        }
+        Ok(Ok(_)) => ctx.run.violation(
+            &format!("patch with a different compatibility id is applied: {}", sc_sig(sc)),
+            "result Ok",
+            case.clone(),
+        ),
+        Err(p) => ctx.run.violation(
+            &format!("apply_next_patches_with_decoder panics: {} at {}", p.kind(), p.site()),
+            &p.message,
+            case.clone(),
+        ),
+    }
+    if snapshot(&map) != before {
+        ctx.run.violation(
+            &format!("UriStatus map modified although the call failed (IncompatiblePatch): {}", sc_sig(sc)),
+            "map differs",
+            case,
+        );
+    }
+}
+
+// ---------------------------------------------------------------------------
+// table keyed patches
+// ---------------------------------------------------------------------------
+
+#[derive(Clone, Debug, Serialize, Deserialize)]
+pub struct TkCase {
+    /// (tag, op: 0 replace / 1 diff / 2 drop)
+    pub ops: Vec<(TagB, u8)>,
+    /// mapping entry format: 1 full invalidation, 2 partial
+    pub format: u8,
+    pub compat_equal: bool,
+    pub fault: Option<(u32, FaultKind)>,
+    /// mapping table tag the entry lives in
+    pub in_iftx: bool,
+}
+
+fn tk_base(in_iftx: bool, format: u8) -> (Vec<u8>, BTreeMap<TagB, Vec<u8>>, String) {
+    let mut e = E2::plain();
+    e.cps = Cps::Set { bias_kind: 0, bias: 0, members: vec![0x41] };
+    let t = T2 {
+        compat: if in_iftx { COMPAT_IFTX } else { COMPAT_IFT },
+        default_format: format,
+        template: b"t/{id}".to_vec(),
+        entries: vec![e],
+        string_data: None,
+        cff_off: None,
+        cff2_off: None,
+    };
+    let mut tables: BTreeMap<TagB, Vec<u8>> = BTreeMap::new();
+    tables.insert(if in_iftx { IFTX } else { IFT }, encode_t2(&t).bytes);
+    tables.insert(*b"tab1", b"abcdef\n".to_vec());
+    tables.insert(*b"tab2", b"foobar\n".to_vec());
+    tables.insert(*b"tab3", vec![]);
+    tables.insert(*b"tab4", b"untouched".to_vec());
+    let mut b = write_fonts::FontBuilder::new();
+    for (t, d) in &tables {
+        b.add_raw(Tag::new(t), d.clone());
+    }
+    (b.build(), tables, expand_uri(&t.template, &Id::Num(1)))
+}
+
+const TK_TAGS: [TagB; 5] = [*b"tab1", *b"tab2", *b"tab3", *b"tab9", *b"IFT "];
+
+fn run_tk(ctx: &Ctx, tc: &TkCase, l: &mut Local) {
+    use incremental_font_transfer::patchmap::SubsetDefinition;
+    let (font, base_tables, uri) = tk_base(tc.in_iftx, tc.format);
+    let compat = if tc.in_iftx { COMPAT_IFTX } else { COMPAT_IFT };
+    let patch_compat = if tc.compat_equal { compat } else { [4, 3, 2, 1] };
+    let mut ops = vec![];
+    let mut want = base_tables.clone();
+    let mut want_err = !tc.compat_equal;
+    let mut n_dec = 0u32;
+    for (i, (tag, op)) in tc.ops.iter().enumerate() {
+        let payload: Vec<u8> = format!("new-{}-{}", tag_str(tag), i).into_bytes();
+        match op {
+            0 => {
+                ops.push((*tag, TableOp::Replace(payload.clone())));
+                want.insert(*tag, payload);
+                n_dec += 1;
+            }
+            1 => {
+                ops.push((*tag, TableOp::Diff(payload.clone())));
+                n_dec += 1;
+                match base_tables.get(tag) {
+                    Some(b) => {
+                        let mut v = b.clone();
+                        v.push(0xDD);
+                        v.extend_from_slice(&payload);
+                        want.insert(*tag, v);
+                    }
+                    None => {
+                        want_err = true;
+                        n_dec -= 1;
+                    }
+                }
+            }
+            _ => {
+                ops.push((*tag, TableOp::Drop));
+                want.remove(tag);
+            }
+        }
+    }
+    let _ = n_dec;
+    // max_uncompressed_length: room for the dictionary rule of the harness decoder
+    let patch = table_keyed_patch(patch_compat, &ops, 64);
+    let case = json!({"kind":"tk","tk": tc});
+    let sig = format!(
+        "format={} in_iftx={} ops={}",
+        tc.format,
+        tc.in_iftx,
+        tc.ops.iter().map(|(t, o)| format!("{}:{}", tag_str(t).trim(), ["replace", "diff", "drop"][*o as usize])).collect::<Vec<_>>().join(",")
+    );
+    let decoder = Decoder::new(tc.fault);
+    let mut map: HashMap<String, UriStatus> = HashMap::new();
+    map.insert(uri.clone(), UriStatus::Pending(patch));
+    map.insert("unrelated".into(), UriStatus::Pending(vec![9]));
+    let before = snapshot(&map);
+    let sd = SubsetDefinition::codepoints([0x41u32].into_iter().collect());
+    let r = guard(|| {
+        let fr = FontRef::new(&font).unwrap();
+        let g = PatchGroup::select_next_patches(fr, &sd).map_err(|e| format!("{e}"))?;
+        let uris: Vec<String> = g.uris().map(|s| s.to_string()).collect();
+        Ok::<_, String>((uris, g.apply_next_patches_with_decoder(&mut map, &decoder)))
+    });
+    l.evals += 1;
+    l.applies += 1;
+    let after = snapshot(&map);
+    let mut h = Fnv::new();
+    h.str("tk");
+    h.str(&sig);
+    h.u64(tc.compat_equal as u64);
+    h.u64(tc.fault.map(|(k, f)| k as u64 * 16 + f as u64).unwrap_or(0));
+    let (uris, res) = match r {
+        Err(p) => {
+            ctx.run.violation(&format!("table keyed apply panics: {} at {}", p.kind(), p.site()), &p.message, case);
+            return;
+        }
+        Ok(Err(e)) => {
+            ctx.run.violation("select_next_patches fails on the table keyed harness font", &e, case);
+            return;
+        }
+        Ok(Ok(x)) => x,
+    };
+    if uris != vec![uri.clone()] {
+        ctx.run.violation("select_next_patches does not offer the table keyed entry", &format!("{uris:?}"), case);
+        return;
+    }
+    let fault_hit = decoder.fault_hit.get();
+    if fault_hit {
+        l.faults_injected += 1;
+    }
+    if !tc.compat_equal && decoder.calls.get() != 0 {
+        ctx.run.violation(
+            "decoder invoked before the compatibility id was verified: table keyed",
+            &format!("{} calls", decoder.calls.get()),
+            case.clone(),
+        );
+    }
+    match res {
+        Err(e) => {
+            h.str("err");
+            h.str(&err_class(&e));
+            if after != before {
+                ctx.run.violation(
+                    &format!("UriStatus map modified although the call failed ({}): table keyed", err_class(&e)),
+                    &sig,
+                    case.clone(),
+                );
+            }
+            let fault_err = fault_hit && tc.fault.map(|f| f.1) != Some(FaultKind::Oversize);
+            if !want_err && !fault_err && !(fault_hit) {
+                ctx.run.violation(
+                    &format!("table keyed apply fails ({}) where the reference applies", err_class(&e)),
+                    &sig,
+                    case.clone(),
+                );
+            }
+            if fault_hit && tc.fault.map(|f| f.1) == Some(FaultKind::Oversize) {
+                l.oversize_err += 1;
+            }
+            l.expected_err_runs += 1;
+        }
+        Ok(new_font) => {
+            if fault_hit && tc.fault.map(|f| f.1) != Some(FaultKind::Oversize) {
+                ctx.run.violation(
+                    &format!("decoder failure {:?} does not produce an error: table keyed", tc.fault.unwrap().1),
+                    &sig,
+                    case.clone(),
+                );
+                return;
+            }
+            let mut exp = before.clone();
+            for (k, v) in exp.iter_mut() {
+                if *k == uri {
+                    *v = None;
+                }
+            }
+            if exp != after {
+                ctx.run.violation("UriStatus map after success is not 'exactly the applied URIs flipped': table keyed", &sig, case.clone());
+            }
+            if fault_hit {
+                l.oversize_ok += 1;
+                h.str("oversize-ok");
+            } else if want_err {
+                ctx.run.violation(
+                    &format!("table keyed apply succeeds where the reference expects an error (compat_equal={})", tc.compat_equal),
+                    &sig,
+                    case.clone(),
+                );
+            } else {
+                match table_map(&new_font) {
+                    Err(s) => ctx.run.violation("table keyed result unreadable", &s, case.clone()),
+                    Ok(m) => {
+                        if m != want {
+                            let class = if m.keys().collect::<Vec<_>>() != want.keys().collect::<Vec<_>>() {
+                                "table set differs (dropped/added tables)"
+                            } else if tc.ops.iter().any(|(t, _)| m.get(t) != want.get(t)) {
+                                "patched table is not the decoded replacement/diff"
+                            } else {
+                                "untouched table changed"
+                            };
+                            ctx.run.violation(
+                                &format!("table keyed result: {class}"),
+                                &format!("{sig}: got {:?}", m.iter().map(|(k, v)| (tag_str(k), hex(v))).collect::<Vec<_>>()),
+                                case.clone(),
+                            );
+                        }
+                        h.str("ok");
+                        let dg = h.finish();
+                        l.nontrivial.insert(dg);
+                    }
+                }
+            }
+        }
+    }
+    l.all.insert(h.finish());
+}
+
+fn space_tk(ctx: &Ctx) {
+    let run = ctx.run;
+    // ordered selections of <= 3 distinct tags x op per tag
+    let mut op_lists: Vec<Vec<(TagB, u8)>> = vec![];
+    fn rec(cur: &mut Vec<(TagB, u8)>, out: &mut Vec<Vec<(TagB, u8)>>) {
+        if !cur.is_empty() {
+            out.push(cur.clone());
+        }
+        if cur.len() == 3 {
+            return;
+        }
+        for t in TK_TAGS {
+            if cur.iter().any(|(x, _)| *x == t) {
+                continue;
+            }
+            for op in 0..3u8 {
+                cur.push((t, op));
+                rec(cur, out);
+                cur.pop();
+            }
+        }
+    }
+    rec(&mut vec![], &mut op_lists);
+    run.bound("tk_op_lists", json!(op_lists.len()));
+    let mut cases: Vec<TkCase> = vec![];
+    for ops in &op_lists {
+        let n_dec = ops.iter().filter(|(_, o)| *o != 2).count() as u32;
+        for format in [1u8, 2] {
+            for in_iftx in [false, true] {
+                if in_iftx && format == 1 && ops.len() == 3 && run.tier == Tier::Quick {
+                    continue;
+                }
+                cases.push(TkCase { ops: ops.clone(), format, compat_equal: true, fault: None, in_iftx });
+                cases.push(TkCase { ops: ops.clone(), format, compat_equal: false, fault: None, in_iftx });
+                if in_iftx || format == 2 {
+                    continue;
+                }
+                for k in 1..=n_dec + 1 {
+                    for f in FAULT_KINDS {
+                        cases.push(TkCase { ops: ops.clone(), format, compat_equal: true, fault: Some((k, f)), in_iftx });
+                    }
+                }
+            }
+        }
+    }
+    run.count("tk_cases", cases.len() as u64);
+    run.sample(json!({"space":"tk","case": cases[cases.len() / 2]}));
+    let cases = &cases;
+    let chunk = 64;
+    par_for(cases.len().div_ceil(chunk), |c| {
+        let mut l = Local::default();
+        for i in c * chunk..((c + 1) * chunk).min(cases.len()) {
+            run_tk(ctx, &cases[i], &mut l);
+        }
+        ctx.merge(l);
+    });
+}
